@@ -833,6 +833,15 @@ func checkMix(c Case) pbt.Result {
 						if out := os.Getenv("VERIF_OUT"); out != "" {
 							// the blocked goroutines leak: later race reports of this process are tainted
 							_ = os.WriteFile(filepath.Join(out, "deadlock-seen"), []byte("1"), 0o644)
+							// keep the verdict where the parent process finds it: while rapid shrinks this
+							// failure, a (tainted) race report may kill the worker before the violation is
+							// written through the normal path
+							if _, serr := os.Stat(filepath.Join(out, "deadlock-case.json")); serr != nil {
+								if js, jerr := json.Marshal(c); jerr == nil {
+									_ = os.WriteFile(filepath.Join(out, "deadlock-case.json"), js, 0o644)
+									_ = os.WriteFile(filepath.Join(out, "deadlock-msg.txt"), []byte(res.Err), 0o644)
+								}
+							}
 						}
 						return res
 					}
@@ -1568,6 +1577,24 @@ func TestRace(t *testing.T) {
 		// a deadlock verdict was already reported by the worker; goroutines it could not join
 		// make every later race report of that process meaningless
 		fmt.Println("race report after a reported deadlock ignored (leaked goroutines)")
+		if !strings.Contains(text, "VIOLATION property=") {
+			// the worker died before it could write the deadlock verdict itself: do it for it
+			if cur, rerr := os.ReadFile(filepath.Join(out, "deadlock-case.json")); rerr == nil {
+				h := sha256.Sum256(cur)
+				dir := filepath.Join(pbt.Root(), "replays", "C20")
+				_ = os.MkdirAll(dir, 0o755)
+				path := filepath.Join(dir, fmt.Sprintf("%x.json", h[:8]))
+				_ = os.WriteFile(path, cur, 0o644)
+				msg, _ := os.ReadFile(filepath.Join(out, "deadlock-msg.txt"))
+				first := strings.SplitN(string(msg), "\n", 2)[0]
+				line := fmt.Sprintf("VIOLATION property=C20 replay=%s\nVIOLATION-DETAIL property=C20 phase=race %s\n", path, first)
+				fmt.Print(line)
+				if f, ferr := os.OpenFile(filepath.Join(out, "violations.log"), os.O_APPEND|os.O_CREATE|os.O_WRONLY, 0o644); ferr == nil {
+					_, _ = f.WriteString(line)
+					_ = f.Close()
+				}
+			}
+		}
 		t.Fail()
 		return
 	}
